@@ -19,7 +19,8 @@ from . import common
 
 PROP = "C24"
 LEAN_PROPS = "PpciVerif/Props/C24.lean"
-LEAN_TARGETS = ["Drivers.C24", "Drivers.IR", "PpciVerif.Props.C24"]
+LEAN_PROPS_EXTRA = ["PpciVerif/Props/C24T1.lean"]   # T1 translation tie of the emitted helpers (notes/T1.md)
+LEAN_TARGETS = ["Drivers.C24", "Drivers.IR", "PpciVerif.Props.C24", "PpciVerif.Props.C24T1"]
 CHECK_WITHOUT_BUILD = True      # the failing-input search does not need the theorems, only the drivers
 LEVEL = "proof"
 LEVEL_TEXT = (
@@ -172,6 +173,9 @@ def regen(ctx):
     txt = "\n".join(src)
     if not GEN.exists() or GEN.read_text() != txt:
         GEN.write_text(txt)
+    # T1: py2lean translation of the emitted helper text into Gen/Py_ir2py_helpers.lean (harness/t1.py)
+    from . import t1
+    t1.regen(ctx, "ir2py_helpers")
 
 
 # ---------------------------------------------------------------------------------------------
